@@ -1,0 +1,10 @@
+//go:build verif
+
+package keystore
+
+import "sync/atomic"
+
+// VerifSignCount counts signatures produced with keystore keys (verification harness only).
+var VerifSignCount uint64
+
+func verifSigned(site int) { atomic.AddUint64(&VerifSignCount, 1) }
